@@ -68,6 +68,8 @@ class PathEnum:
                 return v[3][idx]
             if v[0] == 'downcast' and isinstance(v[1], tuple) and v[1] and v[1][0] == 'adt' and v[1][2] == v[2] and idx < len(v[1][3]):
                 return v[1][3][idx]
+            if v[0] == 'with_field' and name is not None:
+                return v[3] if v[2] == name else PathEnum.field(v[1], idx, name)
             if v[0] == 'ovf' and idx == 0:
                 return v[1]
             if v[0] == 'ovf' and idx == 1:
@@ -138,6 +140,11 @@ class PathEnum:
                 items[idx] = v
                 store[pl['l']] = T('tuple', tuple(items))
                 return
+        # a single named field of a value held in the local is replaced: the value "base with field n := v"
+        if len(pl['p']) == 1 and isinstance(pl['p'][0], dict) and 'f' in pl['p'][0] and pl['p'][0].get('n') and base is not None \
+                and isinstance(base, tuple) and base and base[0] in ('call', 'param', 'with_field', 'adt', 'field', 'mutated'):
+            store[pl['l']] = T('with_field', base, pl['p'][0]['n'], v)
+            return
         store[pl['l']] = T('unknown-write', pl['l'])
 
     # ---- traversal
@@ -445,6 +452,8 @@ def simplify(t):
     t = tuple(simplify(x) if isinstance(x, tuple) else x for x in t)
     if t[0] == 'field':
         base = deref(t[1])
+        if isinstance(base, tuple) and base and base[0] == 'with_field':
+            return base[3] if base[2] == t[2] else simplify(T('field', base[1], t[2]))
         if isinstance(base, tuple) and base:
             if base[0] == 'tuple' and str(t[2]).isdigit() and int(t[2]) < len(base[1]):
                 return base[1][int(t[2])]
